@@ -189,12 +189,14 @@ func newWalChannels() *walChannels {
 	entry := make(chan *model.Entry)
 	entries := make(chan []model.Entry)
 	count := make(chan int)
+	oops := make(chan error)
 	done := make(chan struct{})
 	return &walChannels{
 		tokens:  token,
 		entry:   entry,
 		entries: entries,
 		count:   count,
+		oops:    oops,
 		done:    done,
 	}
 }
